@@ -67,6 +67,13 @@ class HistRunner:
         if kind in ("timeout", "close") or kind.startswith("oserror"):
             sock.push(kind)
             return
+        if kind == "write":
+            # the connection is full duplex (e.g. an NTRIP client sending GGA sentences): writing must not disturb
+            # what has been received
+            w.write(bytes.fromhex(op[1]))
+            self.cls.add("write-between-reads")
+            self.inv(f"{k}:write")
+            return
         l0 = len(sock.log)
         buf0 = len(w.buffer)
         if kind == "read":
@@ -218,7 +225,7 @@ def e_long(tier, shard, nshards):
     sizes = [96 * 1024, 300 * 1024, 1200 * 1024, 2500 * 1024] if tier == "quick" else [96 * 1024, 300 * 1024, 1200 * 1024, 2500 * 1024, 9000 * 1024]
     k = 0
     for total in sizes:
-        for bufsize, seg, rd in ((4096, 1500, 997), (512, 4000, 61), (4096, 9000, 4096), (64, 700, 1)):
+        for bufsize, seg, rd in ((4096, 1500, 997), (512, 4000, 61), (4096, 9000, 4096), (64, 700, 1), (4096, 30000, 65537), (4096, 50000, 70001)):
             k += 1
             if k % nshards != shard:
                 continue
@@ -254,7 +261,7 @@ def s_hist(draw, tier):
     ev = st.one_of(_payloads(), _payloads(), st.sampled_from([["timeout"], ["oserror"]]))
     init = draw(st.lists(ev, min_size=0, max_size=3))
     nread = st.one_of(st.integers(0, 70), st.sampled_from([1, 1, 2, 3, bufsize - 1 if bufsize > 1 else 1, bufsize, bufsize + 1]), st.integers(0, 700))
-    op = st.one_of(_payloads(), _payloads(), nread.map(lambda n: ["read", n]), nread.map(lambda n: ["read", n]), nread.map(lambda n: ["read", n]), st.just(["readline"]), st.sampled_from([["timeout"], ["timeout"], ["oserror"], ["oserror:connreset"], ["oserror:brokenpipe"], ["oserror:connaborted"], ["oserror:blocking"], ["oserror:interrupted"]]))
+    op = st.one_of(_payloads(), _payloads(), nread.map(lambda n: ["read", n]), nread.map(lambda n: ["read", n]), nread.map(lambda n: ["read", n]), st.just(["readline"]), st.just(["write", b"$GPGGA,1*00\r\n".hex()]), st.sampled_from([["timeout"], ["timeout"], ["oserror"], ["oserror:connreset"], ["oserror:brokenpipe"], ["oserror:connaborted"], ["oserror:blocking"], ["oserror:interrupted"]]))
     ops = draw(st.lists(op, min_size=1, max_size=40))
     if draw(st.integers(0, 3)) == 0:
         k = draw(st.integers(0, len(ops)))
@@ -317,7 +324,7 @@ def _short(c):
 
 
 SUBS = [
-    Sub("wrapper_histories", o_hist, strategy=s_hist, enum=e_long, examples=(600, 8000), rule="refill straddling a read and a timeout with a non-empty buffer in one history", need={"refill-straddles-read": 1, "timeout-with-nonempty-buffer": 1, "readline-complete": 1, "readline-cut-by-event": 1, "eof-during-read": 1}, sample=_short),
+    Sub("wrapper_histories", o_hist, strategy=s_hist, enum=e_long, examples=(600, 8000), rule="refill straddling a read and a timeout with a non-empty buffer in one history", need={"write-between-reads": 1, "refill-straddles-read": 1, "timeout-with-nonempty-buffer": 1, "readline-complete": 1, "readline-cut-by-event": 1, "eof-during-read": 1}, sample=_short),
     Sub("wrapper_state_machine", o_hist, enum=e_machine, rule="RuleBasedStateMachine runs over the same operations; evaluations = rule steps executed; failing histories are re-judged by the op-list oracle", sample=_short),
     Sub("reader_socket_equals_file", o_diff, strategy=s_diff, examples=(120, 3000), rule=">= 2 frames and a cut inside a frame", need={"cut-inside-frame": 1}, sample=_short),
 ]
